@@ -681,6 +681,13 @@ func (r *Runner) judgeReturn(op *ClientOp) {
 			if b := w.O.RestoreFloor(); b > r.maxAcked {
 				r.maxAcked = b // C20/R2: later entries get indexes above the burned one
 			}
+		} else {
+			r.feat("restore-refused:" + shortErr(op.Err))
+		}
+		for _, rec := range r.restores {
+			if rec.op == op {
+				rec.returned, rec.writtenAtReturn = true, w.O.UserSnapshotWrittenAt(rec.state.Hash)
+			}
 		}
 	}
 }
